@@ -77,7 +77,7 @@ def isConfig : In ρ → Bool
   | .applyConfig _ => true
   | _ => false
 
-theorem stepIn_settings (s : State ρ) (i : In ρ) (hr : v.resetOnError = true) (h : isConfig i = false) :
+theorem stepIn_settings (s : State ρ) (i : In ρ) (hr : v.sound = true) (h : isConfig i = false) :
     (stepIn v Z C s i).1.settings = s.settings := by
   cases i with
   | add r => simp only [stepIn, add]; split <;> rfl
@@ -87,7 +87,7 @@ theorem stepIn_settings (s : State ρ) (i : In ρ) (hr : v.resetOnError = true) 
   | sendDirect rs => exact (sendDirect_spec v Z C s rs).1
   | applyConfig c => simp [isConfig] at h
 
-theorem settings_const (h : List (In ρ)) (hr : v.resetOnError = true) : ∀ s : State ρ, (∀ i ∈ h, isConfig i = false) →
+theorem settings_const (h : List (In ρ)) (hr : v.sound = true) : ∀ s : State ρ, (∀ i ∈ h, isConfig i = false) →
     (final v Z C s h).settings = s.settings ∧ ∀ x ∈ (run v Z C s h).2, x.1 = s.settings := by
   induction h with
   | nil => intro s _; exact ⟨rfl, by simp [run]⟩
@@ -114,12 +114,12 @@ theorem stop_stopped (s : State ρ) : (stop v Z C s).1.stopped = true := by
   · rw [if_pos hs]; exact hs
   · rw [if_neg hs]
 
-theorem stop_flushes (s : State ρ) (hr : v.resetOnError = true) (hs : s.stopped = false) : (stop v Z C s).1.bufLen = 0 := by
+theorem stop_flushes (s : State ρ) (hr : v.sound = true) (hs : s.stopped = false) : (stop v Z C s).1.bufLen = 0 := by
   unfold stop
   rw [if_neg (by simp [hs])]
   exact (sendAndClear_spec v Z C _ hr).2.2.2.2.1
 
-theorem stop_drains (hv : v.drainOnStop = true) (s : State ρ) (hr : v.resetOnError = true) (hs : s.stopped = false) :
+theorem stop_drains (hv : v.drainOnStop = true) (s : State ρ) (hr : v.sound = true) (hs : s.stopped = false) :
     (stop v Z C s).1.queue = [] := by
   unfold stop
   rw [if_neg (by simp [hs])]
@@ -140,11 +140,12 @@ theorem directAppends_append (a b : List (In ρ)) : directAppends (a ++ b) = dir
   | nil => rfl
   | cons i is ih => rw [List.cons_append, directAppends_cons, directAppends_cons i is, ih, List.append_assoc]
 
-/-- after a stop every record the queue accepted and every directly appended record has been emitted -/
-theorem all_emitted_at_stop (hv : v.drainOnStop = true) (hr : v.resetOnError = true) (hne : ∀ r, C.enc r ≠ []) (st : Settings) (ans : List Bool) (h : List (In ρ))
+/-- after a stop every *serialisable* record the queue accepted or that was appended directly has
+    been emitted: the emitted records are the good ones of an order-preserving merge of the two -/
+theorem all_emitted_at_stop (hv : v.drainOnStop = true) (hr : v.sound = true) (hne : ∀ r, C.enc r ≠ []) (st : Settings) (ans : List Bool) (h : List (In ρ))
     (hs : (final v Z C (init st ans) h).stopped = false) :
-    Interleave (accepted v Z C (init st ans) (h ++ [.stop])) (directAppends h)
-      (sharedRecs (emitted v Z C (init st ans) (h ++ [.stop]))) := by
+    ∃ fed, Interleave (accepted v Z C (init st ans) (h ++ [.stop])) (directAppends h) fed ∧
+      sharedRecs (emitted v Z C (init st ans) (h ++ [.stop])) = good C fed := by
   obtain ⟨deq, fed, h1, h2, h3⟩ := history_inv v Z C (h ++ [.stop]) hr (init st ans)
   have hf : final v Z C (init st ans) (h ++ [.stop]) = (stop v Z C (final v Z C (init st ans) h)).1 := by
     rw [final_append]; rfl
@@ -161,42 +162,42 @@ theorem all_emitted_at_stop (hv : v.drainOnStop = true) (hr : v.resetOnError = t
   simp only [List.nil_append, List.reverse_nil, List.append_nil] at h3
   rw [directAppends_append] at h2
   simp only [directAppends, List.append_nil] at h2
-  rw [h3, ← h1]; exact h2
+  exact ⟨fed, by rw [← h1]; exact h2, h3⟩
 
 /-! ### flush conditions -/
 
-theorem append_flushes (s : State ρ) (r : ρ) (hr : v.resetOnError = true) (hm : mustFlush C s r) : (appendRec v Z C s r).1.bufLen = 0 := by
-  rw [appendRec_eq, if_pos hm]
+theorem append_flushes (s : State ρ) (r : ρ) (hr : v.sound = true) (hok : C.fails r = false) (hm : mustFlush C s r) : (appendRec v Z C s r).1.bufLen = 0 := by
+  rw [appendRec_ok v Z C s r hok, appendOk_eq, if_pos hm]
   exact (sendAndClear_spec v Z C _ hr).2.2.2.2.1
 
-theorem append_flushes_pack (s : State ρ) (r : ρ) (hr : v.resetOnError = true) (hm : mustFlush C s r) (hpos : 0 < s.bufLen + (C.enc r).length) :
+theorem append_flushes_pack (s : State ρ) (r : ρ) (hr : v.sound = true) (hok : C.fails r = false) (hm : mustFlush C s r) (hpos : 0 < s.bufLen + (C.enc r).length) :
     (appendRec v Z C s r).1.buf = [] ∧
     (appendRec v Z C s r).2.map (·.recs) = [s.buf.reverse ++ [r]] := by
-  rw [appendRec_eq, if_pos hm]
+  rw [appendRec_ok v Z C s r hok, appendOk_eq, if_pos hm]
   have hne : (appended C s r).bufLen ≠ 0 := by
     show s.bufLen + (C.enc r).length ≠ 0
     omega
   rw [sendAndClear_eq v Z C _ hr hne]
   simp [appended, flushed, flushPack]
 
-theorem append_buffers (s : State ρ) (r : ρ) (hm : ¬ mustFlush C s r) :
+theorem append_buffers (s : State ρ) (r : ρ) (hok : C.fails r = false) (hm : ¬ mustFlush C s r) :
     (appendRec v Z C s r).2 = [] ∧ (appendRec v Z C s r).1.buf = r :: s.buf := by
-  rw [appendRec_eq, if_neg hm]; exact ⟨rfl, rfl⟩
+  rw [appendRec_ok v Z C s r hok, appendOk_eq, if_neg hm]; exact ⟨rfl, rfl⟩
 
-theorem idle_flushes (s : State ρ) (hr : v.resetOnError = true) (hs : s.stopped = false) (hq : s.queue = []) : (step v Z C s).1.bufLen = 0 := by
+theorem idle_flushes (s : State ρ) (hr : v.sound = true) (hs : s.stopped = false) (hq : s.queue = []) : (step v Z C s).1.bufLen = 0 := by
   unfold step
   rw [if_neg (by simp [hs]), hq]
   exact (sendAndClear_spec v Z C _ hr).2.2.2.2.1
 
 /-! ### ownership -/
 
-theorem all_owned (hv : v.copyOnHandOver = true) (hr : v.resetOnError = true) (h : List (In ρ)) (s : State ρ) :
+theorem all_owned (hv : v.copyOnHandOver = true) (hr : v.sound = true) (h : List (In ρ)) (s : State ρ) :
     ∀ p ∈ emitted v Z C s h, p.ref = .owned := by
   intro p hp
   obtain ⟨st, hb⟩ := emitted_built v Z C h s hr p hp
   exact hb.owned hv
 
-theorem zipped_owned (hr : v.resetOnError = true) (h : List (In ρ)) (s : State ρ) :
+theorem zipped_owned (hr : v.sound = true) (h : List (In ρ)) (s : State ρ) :
     ∀ p ∈ emitted v Z C s h, p.zipped = true → p.ref = .owned := by
   intro p hp hz
   obtain ⟨st, hb⟩ := emitted_built v Z C h s hr p hp
@@ -206,7 +207,7 @@ theorem view_owned (s : State ρ) (p : Pack ρ) (h : p.ref = .owned) : view C s 
   unfold view; rw [h]
 
 /-- right after a flush the client sees what it was handed, alias or not -/
-theorem view_at_handover (s : State ρ) (hr : v.resetOnError = true) : ∀ p ∈ (sendAndClear v Z C s).2,
+theorem view_at_handover (s : State ρ) (hr : v.sound = true) : ∀ p ∈ (sendAndClear v Z C s).2,
     view C (sendAndClear v Z C s).1 p = p.payload := by
   by_cases h : s.bufLen = 0
   · rw [sendAndClear_noop v Z C s h]; simp
